@@ -32,6 +32,9 @@ CLAIMED = {
  'C17': dict(cat='exploration', tech='exhaustive grid walk of latitude x longitude x height, origins x offsets, vectors x angles through every frame conversion of the real code; identities plus closed-form reference',
    text='Geodetic->ECEF->geodetic over 15.6 k (quick) / 1.44 M (thorough) points including both poles, 90-1e-k ladders, an equator ladder and +-180; ECEF<->ENU both directions over origins x 343 offsets, isometry over all pairs of points, AER, DCA (angles, deg/rad), NED<->ENU on vectors and arrays, LLF matrices on an angle grid.',
    note='Grids, not the continuum; latitude tolerance 1e-8 deg = documented stopping criterion of the fixed-point iteration; trusted: mc/ref/frames.py.'),
+ 'C04': dict(cat='exploration', tech='exhaustive grid walk: every estimator entry x designed attitude alphabet (finite rotation groups, canonical poses, general-position cosets) x dips x frames x scalings x entry points, on the real estimators with exact synthetic measurements',
+   text='26 estimator entries (TRIAD, e-compass, am2DCM/am2q, Davenport, FLAE x3, Tilt x4, AQUA.estimate, acc2q, QUEST, OLEQ, SAAM x2, FAMC, FQA x2); singularity-free class on 336 attitudes (all 24 axis-aligned orientations, level/inverted heading rings, icosahedral group and an oblique conjugate incl. exact half-turns), closed-form class on the ~500 general-position elements of a conjugate, a coset and the 4-D integer lattice; x 2 (quick) / 7 (thorough) dips x frames x 2/4 magnitude scalings x constructor and estimate(); OLEQ additionally x an enumerated menu of start vectors (np.random.random is an owned seam). Oracle: the returned rotation maps both unit references onto both unit measurements in the documented direction.',
+   note='Attitude lattices, not all of SO(3); reference conventions per estimator in mc/ref/filters.py are part of the trusted base (any mistake there shows as a violation on every case).'),
 }
 PENDING_REASON = 'check not built yet in this session (planned in DESIGN.md section 3); not claimed until it runs clean'
 
